@@ -18,7 +18,7 @@ import xarray as xr
 from affine import Affine
 
 from vf import core, e1
-from vf.core import R
+from vf.core import R, h64
 
 PROPERTY = "C09"
 LEVEL = "model_checking"
@@ -92,8 +92,17 @@ class St:
         self.xx, self.rows, self.cols, self.hist = xx, rows, cols, hist
 
     def key(self):
-        return (tuple(self.rows), tuple(self.cols), tuple(self.xx.dims), str(self.xx.dtype),
-                "dask" if isinstance(self.xx.data, da.Array) else "numpy")
+        """Canonical state: the surviving pixels plus everything the recovery of the GeoBox can read - which coordinates
+        and attributes are still attached and what the scalar (CRS) coordinates hold. Two arrays with the same key have
+        the same futures under the operations of the alphabet; pixel values and the operation history are dropped."""
+        xx = self.xx
+        meta = []
+        for name, c in xx.coords.items():
+            val = repr(c.values.tolist()) if c.ndim == 0 else None
+            meta.append((str(name), tuple(c.dims), val, tuple(sorted(map(str, c.attrs))), h64(repr(sorted((str(k), str(v)) for k, v in c.attrs.items())))))
+        return (tuple(self.rows), tuple(self.cols), tuple(xx.dims), str(xx.dtype),
+                "dask" if isinstance(xx.data, da.Array) else "numpy",
+                tuple(sorted(meta)), tuple(sorted(map(str, xx.attrs))), str(xx.encoding.get("grid_mapping")))
 
 
 SLICES = {"1:": slice(1, None), ":-1": slice(None, -1), "::2": slice(None, None, 2), "::-1": slice(None, None, -1), "1:2": slice(1, 2)}
@@ -112,6 +121,10 @@ def events(st: St):
     if "band" in st.xx.dims:
         evs.append(("isel-band", 0))
     evs += [("add1",), ("mul2.0",), ("astype-f32",), ("copy",), ("pickle",)]
+    if not any(ev[0] in ("slice", "add-rewrapped") for ev in st.hist):
+        # arithmetic with ANOTHER array registered on the same grid (wrapped with the GeoBox recovered from this one, so
+        # its CRS object has another provenance); only on unsliced grids, where both label sets come from one GeoBox
+        evs.append(("add-rewrapped",))
     if isinstance(st.xx.data, da.Array):
         evs.append(("compute",))
     return evs
@@ -138,6 +151,13 @@ def step(st: St, ev, ydim, xdim) -> St:
         xx = xx + 1
     elif k == "mul2.0":
         xx = xx * 2.0
+    elif k == "add-rewrapped":
+        g = xx.odc.geobox
+        if g is None:
+            raise StepSkipped()
+        other = wrap_xr(np.zeros(tuple(g.shape), dtype=xx.dtype), g)
+        dims0 = xx.dims
+        xx = (xx + other).transpose(*dims0)
     elif k == "astype-f32":
         xx = xx.astype("float32")
     elif k == "copy":
@@ -149,6 +169,10 @@ def step(st: St, ev, ydim, xdim) -> St:
     else:
         raise ValueError(ev)
     return St(xx, rows, cols, st.hist + (ev,))
+
+
+class StepSkipped(Exception):
+    pass
 
 
 def _opclass(hist):
@@ -248,17 +272,21 @@ def run_bfs(case):
             transitions += 1
             try:
                 nx_ = step(st, ev, ydim, xdim)
+            except StepSkipped:
+                continue
             except Exception as e:  # pylint: disable=broad-except
                 if core.in_repo_tb(e):
                     fails.setdefault(f"op:raised:{type(e).__name__}:{kind}:{ev[0]}", f"{case} ops={list(st.hist + (ev,))}: {e}")
                     continue
                 raise
+            # the invariant is evaluated on the target of EVERY transition (two histories reaching the same canonical
+            # state are still two live objects); deduplication only prunes the expansion
+            o = judge(nx_, G0, kind, crs, fails, shape)
             k = nx_.key()
             if k in seen:
                 continue
             seen.add(k)
             states += 1
-            o = judge(nx_, G0, kind, crs, fails, shape)
             outcomes[o] = outcomes.get(o, 0) + 1
             if o in ("empty",):
                 continue
